@@ -522,7 +522,7 @@ class RaggedView2:
 
     @property
     def ends(self):
-        return self.starts + (self.lengths-1)*self.col_step+1
+        return self.starts + (self.lengths-1)*np.int64(self.col_step)+1  # a compounded column step may exceed the 32-bit index width
 
     def _get_flat_indices(self, do_split=False):
         """Return the indices into a flattened array
